@@ -55,3 +55,31 @@ Proof.
   split; [|exact H3]. split; [exact Hrd|]. split; assumption.
 Qed.
 Print Assumptions C15_preserving_chains_end_clean.
+
+(** the bookkeeping, on every schedule of the lifecycle model of a proxy incarnation (clients
+    connecting, upstream dials succeeding or failing, links ending in any order - whoever ended the
+    connection -, stop() at any point or never): whenever every link that was started has ended
+    and the accept loop is not in the middle of setting a connection up, the connection table is
+    empty and no socket is open. Rests on four facts regenerated from proxy.go / link.go. *)
+From TP Require Import Model.Proxy Proofs.ProxyProofs.
+Theorem C15_code_facts :
+  free_blocker_waits_for_accept_loop = true /\ conn_key_is_dest = true /\
+  registers_before_links = true /\ writer_deregisters_its_name = true.
+Proof. repeat split; reflexivity. Qed.
+Print Assumptions C15_code_facts.
+
+Theorem C15_nothing_left_when_links_ended : forall l s,
+  prun px_init l = Some s -> x_links s = [] -> (x_acc s = APending \/ x_acc s = ADone) ->
+  x_table s = [] /\ x_open s = [].
+Proof.
+  exact (nothing_left_when_links_ended (proj1 C15_code_facts) (proj2 (proj2 (proj2 C15_code_facts)))).
+Qed.
+Print Assumptions C15_nothing_left_when_links_ended.
+
+(** the premise is met: two connections, one whose dial fails, links ending in mixed order, a stop *)
+Example C15_books_nonvacuous :
+  exists s, prun px_init [PAccept; PDialOk; PRegister; PLink1; PLink2; PAccept; PDialFail; PAccept; PDialOk; PRegister;
+                          PLinkEnd 1; PLink1; PLink2; PStopKill; PLinkEnd 4; PFreeBlocker1; PLinkEnd 0; PAcceptFail;
+                          PFreeBlocker2; PStopWaited; PStopCloseAll; PLinkEnd 5]%nat = Some s /\
+            x_links s = [] /\ x_acc s = ADone /\ x_table s = [] /\ x_open s = [].
+Proof. eexists. split; [vm_compute; reflexivity|]. repeat split. Qed.
